@@ -560,8 +560,9 @@ PROPS = {
              "histories every public iterator kind is walked on the real code with next/clone/fold switched at every prefix "
              "length and compared to the model; owning iterators at every cut point, through next and through fold with a "
              "consumer that stops by panicking.",
-        note="Trusted: Lean kernel, axioms propext/Classical.choice/Quot.sound; harness + dump hook + protocol. The wrapper "
-             "model is tied to the code through the shared engine: the harness maps every yielded reference back to its "
+        note="Trusted: Lean kernel, axioms propext/Classical.choice/Quot.sound; harness + dump hook + protocol. The driver "
+             "executes the WRAPPER model of the named public type for every `iter` observation (iterObserveW: next x p, fold, "
+             "next on a clone, size hints); the harness maps every yielded reference back to its "
              "bucket, so a wrapper that skipped, repeated or mis-projected an element shows as a difference. IntoValues runs "
              "with a panicking KEY destructor are proved per step only. IterHash/IterHashMut (no size_hint) belong to C06.",
     ),
